@@ -157,3 +157,5 @@ CLAIMED["C15"]["text"] += "; the down-converter turns a boolean into 0/1 and a v
 for _p in ("C06", "C19"):
     CLAIMED[_p]["technique"] += ", path-wise non-nil proof for byte slices stored as string values (R-string-payload-nonnil)"
     CLAIMED[_p]["text"] += "; a byte slice stored as a string value is never nil (nil reads as another type)"
+CLAIMED["C06"]["technique"] += ", defined-on-every-path rule for the key fields of sort comparators (R-sort-keys-defined)"
+CLAIMED["C06"]["text"] += "; the fields a sort comparator reads are written on every path to the sort"
